@@ -678,7 +678,8 @@ def c18(R, ctx):
     spec = common.run_model(["rcspec %d" % v for v in vals]) if ctx["driver_ok"] else None
     flagged = set()
     for k, v in enumerate(vals):
-        text, _, rows = impl[k].partition("|")
+        text, rows, shown = (impl[k].split("|") + ["", ""])[:3]
+        impl[k] = text + "|" + rows          # the model has no printer: correspondence on text and attribute rows
         problem = None
         if spec is not None and text != spec[k]:
             problem = "text form is %r, the TPM 2.0 format rules give %r" % (text, spec[k])
@@ -695,6 +696,15 @@ def c18(R, ctx):
                 union |= m
             if problem is None and union != 0xFFFFFFFF:
                 problem = "bit rows leave %#x uncovered" % (0xFFFFFFFF ^ union)
+            if problem is None:
+                # the rows as SHOWN by the pretty printer: 32 positions, the field's bits at its positions, dots elsewhere
+                exp = []
+                for r in rows.split(","):
+                    nm, m = r.split(":")[0], int(r.split(":")[1])
+                    exp.append(nm + "=" + "".join((str((v >> b) & 1) if (m >> b) & 1 else ".") for b in range(31, -1, -1)))
+                if shown.split(",") != exp:
+                    bad_rows = [(a, b) for a, b in zip(shown.split(","), exp) if a != b][:2]
+                    problem = "shown bit rows differ from the fields' bits: %r" % (bad_rows or [shown[:80]],)
         if problem:
             flagged.add(k)
             R.violation("c18:" + problem.split(" ")[0] + ":" + ("fmt1" if v & 0x80 else "fmt0"), "TPM_RC(%#x): %s" % (v, problem),
@@ -835,17 +845,27 @@ def c12(R, ctx):
         if t["fields"] and t["fields"][0]["k"] == "plain" and "t" in t["fields"][0]["t"] and cur["types"][t["fields"][0]["t"]["t"]]["k"].startswith("tpm2b"):
             tpm2b_first.append(cc)
     pool = []
+    same_cc = []    # the same command code with and without an opaque first parameter: plain, encrypted, plain again
     for cc in R.rng.sample(tpm2b_first, min(len(tpm2b_first), 14 if ctx["tier"] == "quick" else 40)):
         c, ci = C.G.command(cc, nsessions=R.rng.choice([1, 2]), decrypt=True)
         pool.append(("C", c))
         r, ri = C.G.response(cc, enc=True)
         pool.append(("R:%d:1" % cc, r))
+        cp, _ = C.G.command(cc, nsessions=R.rng.choice([0, 1]), decrypt=False)
+        rp, _ = C.G.response(cc, enc=False)
+        pool.append(("C", cp))
+        pool.append(("R:%d:0" % cc, rp))
+        same_cc.append([("C", cp), ("C", c), ("C", cp)])
+        same_cc.append([("R:%d:0" % cc, rp), ("R:%d:1" % cc, r), ("R:%d:0" % cc, rp)])
     for _ in range(10):
         c, ci, r, ri = C.G.pair()
         pool.append(("C", c))
         pool.append(("S", c + r))
     reqs = []
     hist = []
+    for items in same_cc:
+        hist.append(items)
+        reqs.append("hist " + ",".join("%s~%s" % (root, h(b)) for root, b in items))
     for _ in range(60 if ctx["tier"] == "quick" else 600):
         k = R.rng.choice([2, 2, 3, 3, 4])
         items = [R.rng.choice(pool) for _ in range(k)]
@@ -962,6 +982,7 @@ def c03(R, ctx):
     for b in base:
         cases += C.size_faults(b, per=3)
     cases += R.rng.sample(base, min(len(base), 200)) + C.arbitrary(n=150)
+    cases = C.regress("C03") + cases
     res, spec = engine(R, ctx, cases, modes=("1",), need_spec=True)
     reqs, impl, model = res["1"]
     flagged = set()
@@ -970,7 +991,10 @@ def c03(R, ctx):
         ie, io = split_result(impl[k])
         problem = None
         if io == "ACC":
-            if spec is not None and spec[k] == "NOTWF":
+            # a response decoded with the encryption flag although its tag announces no sessions is rejected by the
+            # specification for that reason (the flag is the caller's input), not because of a size field: not a C03 matter
+            flag_without_sessions = c[1].startswith("R:") and c[1].endswith(":1") and bytes(c[2][:2]) != b"\x80\x02"
+            if spec is not None and spec[k] == "NOTWF" and not flag_without_sessions:
                 problem = "accepted, but some size field does not equal the length of the region it governs (the input does not parse with exact sizes)"
         elif io.startswith("RAISE") and io.split(" ")[1] in ("X", "A", "U"):
             f = io.split(" ")
@@ -1700,7 +1724,9 @@ def c19(R, ctx):
                     # each printed example re-decodes to what is shown
                     pr = common.run_impl("impl_worker", ["pretty cur 0 %s %s" % (root, h(data))])[0]
                     shown = [l for l in lines[1:] if l.strip()]
-                    n_rows = len([x for x in pr.split("\x1e") if x]) if pr else 0
+                    # examples are printed from the stored object, i.e. without the warnings a fresh decode of an
+                    # out-of-range corpus value adds: warning rows are not part of "what is shown"
+                    n_rows = len([x for x in pr.split("\x1e") if x and not x.startswith("W")]) if pr else 0
                     if pr.startswith("CRASH") or n_rows != len(shown):
                         # encrypted parameters are shown with the encrypted layout; re-decode cannot know: skip those
                         if "TPM2B_ENCRYPTED_PARAM" not in block:
